@@ -421,6 +421,10 @@ func (g *gen) placementCase(m *minfo, rs []res, i int) {
 	ext := map[string]string{"file": ".txt", "dir": "/", "cal": "/", "book": "/", "calobj": ".ics", "cardobj": ".vcf"}
 	for ri, r := range rs {
 		r.Props = append([]pv(nil), r.Props...)
+		if r.Own {
+			d.Res = append(d.Res, r)
+			continue
+		}
 		if m.Kind != "ms1" {
 			mark := okMark
 			if r.Status != 0 && failing(r.Status) {
@@ -482,6 +486,41 @@ func (g *gen) placements() {
 			}
 		}
 	}
+	// The requested collection's own entry with each status (exhaustive):
+	// codes x href spelling {as requested, without the trailing slash, each as
+	// path or absolute URL} x position {only, first, last}. For
+	// sync-collection a failing status there must be an error (404: a
+	// deletion); for the other list methods an error or an omission.
+	for mi := range methods {
+		m := &methods[mi]
+		if m.Kind != "msl" && m.Kind != "sync" {
+			continue
+		}
+		ownKind := "dir"
+		if m.Kind == "sync" || strings.Contains(m.Name, "Query") || strings.Contains(m.Name, "MultiGet") {
+			ownKind = m.Kinds[0]
+		}
+		member := func() res {
+			need, opt := m.propsFor(m.Kinds[0])
+			rs := res{Kind: m.Kinds[0]}
+			for _, id := range append(append([]string(nil), need...), opt...) {
+				rs.Props = append(rs.Props, pv{id, 200})
+			}
+			return rs
+		}
+		i := 0
+		for _, code := range placementCodes {
+			for sp := 0; sp < 4; sp++ {
+				own := res{Kind: ownKind, Status: code, Own: true, NoSlash: sp%2 == 1, Abs: sp >= 2}
+				for _, rs := range [][]res{{own}, {own, member(), member()}, {member(), member(), own}} {
+					g.c.Observe("own_entry", fmt.Sprintf("%s status=%s", m.Name, codeClass(code)), 1)
+					g.placementCase(m, rs, i)
+					i++
+				}
+			}
+		}
+	}
+
 	// Random per-property placements over a wider code set (thorough mostly).
 	wide := append([]int{201, 207, 100, 301, 304, 400, 401, 409, 423, 424, 503, 599}, placementCodes...)
 	n := g.c.Pick(3000, 150000)
